@@ -601,10 +601,49 @@ def a9(ctx, R):
         ctx.holds("A9", "no method of %s writes a class-level container or a mutable default (%d class-level containers)" % (R.cls.name, len(shared)))
 
 
+def _content_never_none(R):
+    """The payload the sender hands back (third element of its result) is the assembler's accumulator: bound to a bytes constant
+    and only ever extended - never None."""
+    asm = R.assembler
+    names = set()
+    for r in walk_no_nested(asm.node):
+        if isinstance(r, ast.Return) and isinstance(r.value, ast.Tuple) and len(r.value.elts) == 3:
+            if not isinstance(r.value.elts[2], ast.Name):
+                return False
+            names.add(r.value.elts[2].id)
+        elif isinstance(r, ast.Return):
+            return False
+    if len(names) != 1:
+        return False
+    acc = next(iter(names))
+    for a in walk_no_nested(asm.node):
+        if isinstance(a, ast.Assign) and any(isinstance(t, ast.Name) and t.id == acc for t in a.targets):
+            if not (isinstance(a.value, ast.Constant) and isinstance(a.value.value, bytes)):
+                # the result of a helper that extends and returns the accumulator is fine too
+                if not (isinstance(a.value, ast.BinOp) and isinstance(a.value.op, ast.Add)):
+                    return False
+        if isinstance(a, ast.Assign) and any(isinstance(t, (ast.Tuple, ast.List)) and any(isinstance(x, ast.Name) and x.id == acc for x in t.elts)
+                                             for t in a.targets):
+            return False
+    snd = R.sender
+    for r in walk_no_nested(snd.node):
+        if isinstance(r, ast.Return) and isinstance(r.value, ast.Tuple) and len(r.value.elts) == 3:
+            el = r.value.elts[2]
+            if not isinstance(el, ast.Name):
+                return False
+            defs = [a for a in walk_no_nested(snd.node) if isinstance(a, ast.Assign) and any(
+                (isinstance(t, ast.Name) and t.id == el.id) or (isinstance(t, (ast.Tuple, ast.List)) and any(isinstance(x, ast.Name) and x.id == el.id for x in t.elts))
+                for t in a.targets)]
+            if not defs or not all(isinstance(a.value, ast.Call) and call_name(a.value) == asm.name for a in defs):
+                return False
+    return True
+
+
 def status_paths(ctx, R, f, extra_oracle=None):
     """Finite-domain enumeration of f over the reply code of every sender
     call (OK / NO): list of dicts {truthy, last_code, value, node, events}."""
     sender = R.sender
+    content_cls = fd.Obj if _content_never_none(R) else fd.Unknown
 
     def oracle(interp, e, name, recv, args, kw, st):
         if extra_oracle is not None:
@@ -621,7 +660,7 @@ def status_paths(ctx, R, f, extra_oracle=None):
             three = wc is not None and fd.truth(wc) is True
             outs = []
             for code in ("OK", "NO"):
-                items = [fd.Const(code), fd.Unknown("data")] + ([fd.Unknown("content")] if three else [])
+                items = [fd.Const(code), fd.Unknown("data")] + ([content_cls("content")] if three else [])
                 outs.append((fd.Tup(items), ("reply", code)))
             return outs
         return None
